@@ -63,7 +63,7 @@ def block_string_value(raw):
     return "\n".join(lines)
 
 
-def lex(s):
+def lex(s, split=False):
     """-> list of (kind, value, start, end); kinds: punctuators, '...', Name, Int, Float, String,
     BlockString, EOF."""
     toks = []
@@ -111,7 +111,12 @@ def lex(s):
             if s[j] == "0":
                 j += 1
                 if j < n and s[j] in DIG:
-                    raise Unspec("number look-ahead (leading zero)")
+                    if not split:
+                        raise Unspec("number look-ahead (leading zero)")
+                    # the literal June-2018 reading (longest match, no look-ahead restriction): the token ends after 0
+                    toks.append(("Int", s[i:j], i, j))
+                    i = j
+                    continue
             else:
                 while j < n and s[j] in DIG:
                     j += 1
@@ -134,7 +139,7 @@ def lex(s):
                     k += 1
                 j = k
                 isf = True
-            if j < n and (s[j] in NC or s[j] == "."):
+            if j < n and (s[j] in NC or s[j] == ".") and not split:
                 raise Unspec("number look-ahead")
             toks.append(("Float" if isf else "Int", s[i:j], i, j))
             i = j
@@ -203,9 +208,9 @@ def N(kind, loc, **kw):
 
 
 class P:
-    def __init__(self, s, ts=False, fv=False):
+    def __init__(self, s, ts=False, fv=False, split=False):
         self.s = s
-        self.t = lex(s)
+        self.t = lex(s, split)
         self.i = 0
         self.ts = ts
         self.fv = fv
@@ -737,14 +742,21 @@ class P:
         self.rej("EXPECT_TS_KEYWORD")
 
 
-def ref_parse(s, entry="doc", ts=False, fv=False):
+def ref_parse(s, entry="doc", ts=False, fv=False, split=False):
     try:
-        p = P(s, ts, fv)
+        p = P(s, ts, fv, split)
         tree = {"doc": p.document, "value": p.value_entry, "type": p.type_entry}[entry]()
         return ("TREE", tree)
     except Reject as r:
         return ("REJECT", r.code, r.pos)
     except Unspec as u:
+        if not split and str(u).startswith("number look-ahead"):
+            # Two readings exist for a number directly followed by a digit / letter / dot: the later drafts' look-ahead
+            # restriction (reject) and June 2018's plain longest match (two tokens). When the text does not derive under
+            # the two-token reading either, it derives under neither: a definite REJECT.
+            alt = ref_parse(s, entry, ts, fv, True)
+            if alt[0] == "REJECT":
+                return ("REJECT", "NUM_LOOKAHEAD/" + alt[1], alt[2])
         return ("UNSPEC", str(u))
     except RecursionError:
         return ("UNSPEC", "depth")
